@@ -8,25 +8,31 @@ import (
 	"math/rand"
 	"os"
 	"path/filepath"
+	"runtime"
+	"strconv"
 	"strings"
 	"sync"
+	"sync/atomic"
+	"time"
 )
 
 // Ctx carries everything one harness run needs; every random choice derives from Seed.
 type Ctx struct {
-	Prop   string
-	Tier   string
-	Seed   int64
-	Out    string
-	Rng    *rand.Rand
-	Sum    *Summary
-	lines  strings.Builder // cases for the extracted runner
-	nlines int
-	tags   []string
-	kernel []kcase // small cases re-evaluated inside the Coq kernel
-	kbytes int
-	failMu sync.Mutex
-	hangs  int
+	Prop         string
+	Tier         string
+	Seed         int64
+	Out          string
+	Rng          *rand.Rand
+	Sum          *Summary
+	lines        strings.Builder // cases for the extracted runner
+	nlines       int
+	tags         []string
+	kernel       []kcase // small cases re-evaluated inside the Coq kernel
+	kbytes       int
+	failMu       sync.Mutex
+	hangs        int
+	lastProgress int64 // unix nanoseconds of the last finished case
+	lastTag      atomic.Value
 }
 
 // V is a case value rendered both in the line format of the extracted runner and as a Gallina literal.
@@ -125,14 +131,62 @@ func (l *lockedSource) Uint64() uint64 { l.mu.Lock(); defer l.mu.Unlock(); retur
 func (l *lockedSource) Seed(s int64)   { l.mu.Lock(); defer l.mu.Unlock(); l.src.Seed(s) }
 
 func newCtx(prop, tier string, seed int64, out string) *Ctx {
-	return &Ctx{Prop: prop, Tier: tier, Seed: seed, Out: out, Rng: rand.New(&lockedSource{src: rand.NewSource(seed).(rand.Source64)}),
+	c := &Ctx{Prop: prop, Tier: tier, Seed: seed, Out: out, Rng: rand.New(&lockedSource{src: rand.NewSource(seed).(rand.Source64)}),
 		Sum: &Summary{Property: prop, Distribution: map[string]int{}, seen: map[string]bool{}, nontrivialKey: map[string]bool{}}}
+	atomic.StoreInt64(&c.lastProgress, time.Now().UnixNano())
+	go c.watchdog()
+	return c
+}
+
+// watchdog: a scenario that never returns (a deadlock inside the library, a callback that never comes where the scenario
+// has no time-out of its own) would otherwise hold the whole check until the caller's time-out and report nothing.  After
+// 300 s without a finished case the run ends with what it has plus the stacks of the goroutines inside gws.
+func (c *Ctx) watchdog() {
+	for {
+		time.Sleep(2 * time.Second)
+		idle := time.Since(time.Unix(0, atomic.LoadInt64(&c.lastProgress)))
+		limit := 300 * time.Second
+		if v, err := strconv.Atoi(os.Getenv("VERIF_STALL_SECONDS")); err == nil && v > 0 {
+			limit = time.Duration(v) * time.Second
+		}
+		if idle < limit {
+			continue
+		}
+		buf := make([]byte, 1<<20)
+		buf = buf[:runtime.Stack(buf, true)]
+		var keep []string
+		for _, g := range strings.Split(string(buf), "\n\n") {
+			if strings.Contains(g, "lxzan/gws") || strings.Contains(g, "main.run") {
+				keep = append(keep, g)
+			}
+		}
+		stacks := strings.Join(keep, "\n\n")
+		if len(stacks) > 12000 {
+			stacks = stacks[:12000]
+		}
+		last, _ := c.lastTag.Load().(string)
+		c.failMu.Lock()
+		c.Sum.OracleFails = append(c.Sum.OracleFails, OracleFail{
+			What:   fmt.Sprintf("the run made no progress for %d s; last finished case: %q (the stacks of the goroutines inside gws are in the replay)", int(idle.Seconds()), last),
+			Sig:    "no-progress-hang",
+			Replay: map[string]any{"last_finished_case": last, "stacks": stacks}})
+		c.Sum.Notes = append(c.Sum.Notes, "run ended by the harness watchdog")
+		err := c.flush()
+		c.failMu.Unlock()
+		if err != nil {
+			fmt.Fprintln(os.Stderr, "harness error:", err)
+			os.Exit(3)
+		}
+		os.Exit(0)
+	}
 }
 
 func (c *Ctx) quick() bool { return c.Tier != "thorough" }
 
 // count records one evaluated case; key identifies it for distinctness; nontrivial by the caller's rule.
 func (c *Ctx) count(key string, nontrivial bool, dist ...string) {
+	atomic.StoreInt64(&c.lastProgress, time.Now().UnixNano())
+	c.lastTag.Store(key)
 	c.Sum.Evaluations++
 	h := sha256.Sum256([]byte(key))
 	k := string(h[:12])
